@@ -448,8 +448,8 @@ func (g *vfG) Int(t reflect.Type, tag vfTag, path string) interface{} {
 	leaf := vfLeaf(path)
 	if tag.format == "httpcode" {
 		c := g.pickInt(path, "code", 200, 404, 500, 503, 100, 599)
-		if g.chance(path, "bad-code", 4) {
-			c = g.pickInt(path, "bad-codev", 99, 600, 0)
+		if g.chance(path, "bad-code", 9) {
+			c = g.pickInt(path, "bad-codev", 99, 600, 0, 1)
 		}
 		if c < 100 || c > 599 {
 			g.bounds[leaf+":bad-code"] = true
@@ -878,22 +878,6 @@ func vfFieldType(t reflect.Type, name string) reflect.Type {
 // vfKindFixup post-processes the generated tree of a filter kind so that cross-field Validate()
 // rules hold most of the time (applied with high probability; the raw tree is kept otherwise).
 func vfKindFixup(g *vfG, kind string, t reflect.Type, m map[string]interface{}) {
-	if kind == "Proxy" {
-		// The mirror pool runs in its own goroutine (proxy.go:299): a panic there cannot be recovered
-		// by anybody and kills the whole process. The known weightedRandom/zero-weight panic is
-		// therefore only produced on main and candidate pools; mirror pools always get positive weights.
-		if mp, ok := m["mirrorPool"].(map[string]interface{}); ok {
-			if lb, ok := mp["loadBalance"].(map[string]interface{}); ok && lb["policy"] == "weightedRandom" {
-				svs, _ := mp["servers"].([]interface{})
-				for _, s := range svs {
-					if sm, ok := s.(map[string]interface{}); ok {
-						sm["weight"] = 1
-					}
-				}
-				g.bounds["mirrorPool:weightedRandom-forced-positive-weights"] = true
-			}
-		}
-	}
 	if !g.chance(kind, "fixup", 94) {
 		return
 	}
@@ -1114,7 +1098,7 @@ func vfKindFixup(g *vfG, kind string, t reflect.Type, m map[string]interface{}) 
 		if rs, ok := m["rules"].([]interface{}); ok {
 			for _, r := range rs {
 				if rm, ok := r.(map[string]interface{}); ok {
-					if c, ok := rm["code"].(int); !ok || c < 100 || c > 599 {
+					if _, ok := rm["code"].(int); !ok {
 						rm["code"] = 200
 					}
 					if _, has := rm["match"]; !has {
@@ -1124,7 +1108,7 @@ func vfKindFixup(g *vfG, kind string, t reflect.Type, m map[string]interface{}) 
 			}
 		}
 	case "Fallback":
-		if c, ok := m["mockCode"].(int); !ok || c < 100 || c > 599 {
+		if _, ok := m["mockCode"].(int); !ok {
 			m["mockCode"] = 503
 		}
 	case "RemoteFilter":
